@@ -193,6 +193,34 @@ def _c05_worker(args):
     return {"cfg": cfg, "ev": ev, "splits": splits}
 
 
+def _c01_history_worker(args):
+    """C01 under different *process histories*: the same configuration in a fresh interpreter, and in an interpreter that ran other
+    calibrations (fewer / more parameters, same sampler classes) before"""
+    cfg, warm, label, repo = args
+    os.environ["VERIF_REPO"] = repo
+    from . import common
+
+    common.use_repo()
+    for w in warm:
+        run_variant(w, {"njobs": 1})
+    ev = run_variant(cfg, {"njobs": 1})
+    ev[0]["axes"] = label
+    common.shutdown_loky()
+    return ev
+
+
+def fresh_map(fn, jobs, procs: int):
+    """every job in its own fresh interpreter"""
+    import multiprocessing as mp
+    from concurrent.futures import ProcessPoolExecutor
+
+    if not jobs:
+        return []
+    ctx = mp.get_context("spawn")
+    with ProcessPoolExecutor(max_workers=max(1, min(procs, len(jobs))), mp_context=ctx, max_tasks_per_child=1) as ex:
+        return list(ex.map(fn, jobs))
+
+
 def pool_map(fn, jobs, procs: int):
     import multiprocessing as mp
     from concurrent.futures import ProcessPoolExecutor
